@@ -853,6 +853,11 @@ func doLine(line string) string {
 		t, _ := hexBytes(x.list[2].atom)
 		_, err := semver.Make(t)
 		return id + " ok=" + b01(err == nil)
+	case "nerr":
+		if len(x.list) != 5 {
+			return id + " BADCASE"
+		}
+		return doNerr(id, x)
 	case "opcall":
 		if len(x.list) != 6 {
 			return id + " BADCASE"
